@@ -60,6 +60,16 @@ impl BloomDataProvider for Provider {
     }
 }
 
+/// A file that cannot be read (every probe of the filter section fails)
+struct UnreadableProvider;
+
+#[async_trait]
+impl BloomDataProvider for UnreadableProvider {
+    async fn read_byte(&self, index: u64) -> anyhow::Result<u8> {
+        Err(anyhow::anyhow!("injected read failure at byte {}", index))
+    }
+}
+
 fn key_strategy() -> BoxedStrategy<Vec<u8>> {
     prop_oneof![
         4 => prop::collection::vec(any::<u8>(), 0..12),
@@ -248,6 +258,14 @@ pub fn run_bloom(c: &BloomCase, _dir: &Path) -> Result<CaseOut, Failure> {
         }
         if off.contains_in_memory(k).is_some() {
             return fail("bloom/offload", "off-loaded filter still answers from memory".into());
+        }
+    }
+    // 3a. the off-loaded filter over a file that cannot be read: the filter cannot tell, so it must not deny
+    for k in &c.a {
+        queries += 1;
+        let got: FilterResult = rt.block_on(FilterTrait::<Vec<u8>>::contains(&off, &UnreadableProvider, k));
+        if got == FilterResult::NotContains {
+            return fail("bloom/denies-when-file-unreadable", format!("key {:?} was added; the buffer is off-loaded and every read of the file fails - FilterTrait::contains answered NotContains", k));
         }
     }
     // 3b. the same bits next to another stored config (an index file of an earlier release): answers must not change
